@@ -55,6 +55,7 @@ func main() {
 					for _, f := range dbgEngine.curFn {
 						fmt.Fprintln(os.Stderr, "  in", f)
 					}
+					dbgEngine.printFnStats()
 				}
 				os.Exit(3)
 			}()
